@@ -124,6 +124,23 @@ def pmap(fn, shards, procs=None):
     return out
 
 
+def safe(pid, fn):
+    """Wrap a case function: an exception escaping the oracle while it drives the library is
+    reported as a violation of kind 'crash' (it reproduces on replay like any other), instead of
+    killing the exploration.  On the unchanged tree no case may crash."""
+    def wrapped(params):
+        try:
+            return fn(params)
+        except Exception as e:  # noqa
+            tb = traceback.extract_tb(e.__traceback__)
+            where = "%s:%d" % (os.path.basename(tb[-1].filename), tb[-1].lineno) if tb else "?"
+            return [("%s:crash:%s" % (pid, digest(params)),
+                     "case raised %s: %s (at %s) on %s" % (type(e).__name__, str(e)[:200], where,
+                                                         json.dumps(jsonable(params))[:300]))]
+    wrapped.__name__ = getattr(fn, "__name__", "case")
+    return wrapped
+
+
 class HarnessError(Exception):
     """The machinery itself is broken (never reported as a property violation)."""
 
